@@ -92,3 +92,28 @@ Proof.
   destruct (out cev) as [[v|x]|]; cbn [snd]; rewrite ?E; try reflexivity; try congruence;
     try (destruct (kind cev); reflexivity).
 Qed.
+
+(* ---- non-vacuity witnesses: all_of([e0, e1]) = event 2; e0 succeeds with 1 and is processed, then e1 with 2 ----------- *)
+Definition exc_s0 : state := fst (call_cond true [0%nat; 1%nat] (fst (call_event (fst (call_event (init_state 0)))))).
+Definition exc_s1 : state := fst (call_succeed 0%nat (VInt 1) exc_s0).
+Lemma ex_cond_check :
+  exists cev oev, get_event 2%nat exc_s1 = Some cev /\ get_event 0%nat exc_s1 = Some oev /\ kind cev = KCond true [0%nat; 1%nat] 0 /\
+  is_triggered cev = false /\
+  c_count (fst (gen_Condition_check {| c_count := 0 |} false true (cond_evaluate true 2 1))) = 1%Z /\
+  snd (gen_Condition_check {| c_count := 0 |} false true (cond_evaluate true 2 1)) = [] /\
+  option_map kind (get_event 2%nat (cond_check 2%nat 0%nat exc_s1)) = Some (KCond true [0%nat; 1%nat] 1) /\
+  option_map out (get_event 2%nat (cond_check 2%nat 0%nat exc_s1)) = Some None.
+Proof. do 2 eexists. split; [reflexivity|]. split; [reflexivity|]. repeat split; vm_compute; reflexivity. Qed.
+
+(* both operands processed (two steps), the condition is triggered: its own callback builds the value *)
+Definition exc_s2 : state :=
+  fst (step 1 [] (fst (step 1 [] (fst (call_succeed 1%nat (VInt 2) exc_s1))))).
+Lemma ex_cond_build :
+  snd (cond_build 2%nat exc_s2) <> RBroken /\
+  build_fx 2%nat exc_s2 (build_gen 2%nat exc_s2) = cond_build 2%nat exc_s2 /\
+  build_gen 2%nat exc_s2 = [FxRemoveChecks; FxNewValue; FxPopulate] /\
+  option_map out (get_event 2%nat (fst (cond_build 2%nat exc_s2))) = Some (Some (Ok (VCond [(0%nat, VInt 1); (1%nat, VInt 2)]))).
+Proof.
+  split; [vm_compute; discriminate|]. split; [apply bridge_cond_build; vm_compute; discriminate|].
+  split; vm_compute; reflexivity.
+Qed.
